@@ -703,3 +703,18 @@ func (r *Result) Blocked() []string {
 func (r *Result) String() string {
 	return fmt.Sprintf("end=%s steps=%d switches=%d trace=%016x blocked=[%s]", r.End, r.Steps, r.Switches, r.TraceID, strings.Join(r.Blocked(), "; "))
 }
+
+// Now replaces time.Now: the system under test has no clock semantics, so time
+// is a deterministic function of the global event sequence number.
+func Now() time.Time {
+	s := S
+	if s == nil {
+		// also outside a run (package initialisers, SimReset): never the real
+		// clock, which would make a run and its replay differ
+		return time.Unix(1700000000, 0)
+	}
+	return time.Unix(1700000000, s.seq*1000)
+}
+
+// Since replaces time.Since.
+func Since(t time.Time) time.Duration { return Now().Sub(t) }
